@@ -727,8 +727,63 @@ class FGen:
                     order.append(n); stack.pop()
         dfs(fn.blocks[0].label)
         order.reverse()
+        order = self.nest_loops(order, succ)
         byl = {b.label: b for b in fn.blocks}
         return [byl[l] for l in order]   # unreachable blocks dropped
+
+    @staticmethod
+    def _overlap(order, succ):
+        pos = {l: i for i, l in enumerate(order)}
+        iv = sorted({(pos[v], pos[u]) for u in order for v in succ[u] if v in pos and pos[v] <= pos[u]})
+        for a in range(len(iv)):
+            for b in range(a + 1, len(iv)):
+                (s1, e1), (s2, e2) = iv[a], iv[b]
+                if s1 < s2 <= e1 < e2:
+                    return True
+        return False
+
+    def nest_loops(self, order, succ):
+        """CBMC counts iterations per backward goto and assumes the textual regions [target, goto] of two loops are nested
+        or disjoint; LLVM's block order (and plain RPO) can interleave an inner loop's latch after the outer loop's latch,
+        which makes the unwinding assertion of the outer loop fail spuriously whatever the bound.  When (and only when)
+        that happens, lay the blocks out so that every natural loop is contiguous, header first."""
+        if not self._overlap(order, succ):
+            return order
+        pos = {l: i for i, l in enumerate(order)}
+        pred = {l: [] for l in order}
+        for u in order:
+            for v in succ[u]:
+                if v in pos: pred[v].append(u)
+        body = {}
+        for u in order:
+            for h in succ[u]:
+                if h in pos and pos[h] <= pos[u]:
+                    bs = body.setdefault(h, {h})
+                    st = [u]
+                    while st:
+                        n = st.pop()
+                        if n in bs: continue
+                        bs.add(n); st.extend(pred[n])
+        def lay(blocks, header, depth=0):
+            if depth > 50: raise RecursionError
+            inner = [h for h in body if h != header and h in blocks and body[h] <= blocks and body[h] != blocks]
+            maximal = [h for h in inner if not any(h2 != h and h in body[h2] for h2 in inner)]
+            covered = set()
+            nodes = []
+            for m in maximal:
+                if body[m] & covered: raise RecursionError
+                covered |= body[m]
+                nodes.append((pos[m], lay(body[m], m, depth + 1)))
+            nodes += [(pos[b], [b]) for b in blocks - covered]
+            nodes.sort()
+            return [l for _, ls in nodes for l in ls]
+        try:
+            new = lay(set(order), None)
+        except RecursionError:
+            return order
+        if len(new) != len(order) or new[0] != order[0] or self._overlap(new, succ):
+            return order
+        return new
 
     # ---- main
     def gen(self):
